@@ -614,6 +614,20 @@ func (p c13) xpaths(e *c13env) {
 			lists = append(lists, dp.PathString(ap))
 		}
 	}
+	// a valid filter that is evaluated again after every hostile one: what a refused expression leaves behind must not make the next
+	// request fail
+	canary := func() error {
+		sel, err := e.browser().Root().Find("l?where=" + url.QueryEscape("k='a'"))
+		if err != nil || sel == nil {
+			return err
+		}
+		_, err = nodeutil.WriteJSON(sel)
+		return err
+	}
+	canaryOK := false
+	if pv, _ := core.Try(func() { canaryOK = canary() == nil }); pv != nil {
+		canaryOK = false
+	}
 	for _, x := range xpathFuzz {
 		for _, l := range lists {
 			xx, ll := x, l
@@ -625,6 +639,14 @@ func (p c13) xpaths(e *c13env) {
 				_, err = nodeutil.WriteJSON(sel)
 				return err
 			})
+			if canaryOK {
+				e.c.Eval()
+				var cerr error
+				if pv, _ := core.Try(func() { cerr = canary() }); pv == nil && cerr != nil {
+					e.c.Violate("valid-after-invalid/xpath", "after %q, the valid request l?where=k='a' (fine before) failed: %v", ll+"?where="+xx, cerr)
+					canaryOK = false
+				}
+			}
 		}
 		xx := x
 		e.try("xpath", "filter", "Constrain(filter="+xx+")", true, func() error {
